@@ -61,7 +61,12 @@ var _ p.DataProvider = urlDataProvider{}
 func (u urlDataProvider) Get(key string) any {
 	// if query param ends with [] its always a slice
 	if len(key) > 2 && key[len(key)-2:] == "[]" {
-		return u.Data[key]
+		// a missing parameter is absent (nil): a nil []string boxed in an interface would count as a present, empty list
+		vals, ok := u.Data[key]
+		if !ok {
+			return nil
+		}
+		return vals
 	}
 
 	if len(u.Data[key]) > 1 {
